@@ -57,35 +57,35 @@ def codeCfg : Kind → Cfg
       hasEarlyExit := (v2TxWatchReturns != 0)
       earlyExitsDrain := (v2TxWatchUndrainedReturns == 0)
       doubleClose := (v2TxWatchDeferClose && v2TxWatchExplicitCloseReturns != 0)
-      registerFirst := v2TxWatchRegisterBeforeReplay
+      registerFirst := (v2TxWatchRegisterBeforeReplay && v2TxWatchRegistersBeforeReturn)
       ownStream := v2TxWatchOwnStream }
   | .cfg2 =>
     { guardedSends := (v2CfgWatchGuardedSends == v2CfgWatchSends)
       hasEarlyExit := (v2CfgWatchReturns != 0)
       earlyExitsDrain := (v2CfgWatchUndrainedReturns == 0)
       doubleClose := (v2CfgWatchDeferClose && v2CfgWatchExplicitCloseReturns != 0)
-      registerFirst := v2CfgWatchRegisterBeforeReplay
+      registerFirst := (v2CfgWatchRegisterBeforeReplay && v2CfgWatchRegistersBeforeReturn)
       ownStream := v2CfgWatchOwnStream }
   | .tx3 =>
     { guardedSends := (v3TxWatchGuardedSends == v3TxWatchSends)
       hasEarlyExit := (v3TxWatchReturns != 0)
       earlyExitsDrain := (v3TxWatchUndrainedReturns == 0)
       doubleClose := (v3TxWatchDeferClose && v3TxWatchExplicitCloseReturns != 0)
-      registerFirst := v3TxWatchRegisterBeforeReplay
+      registerFirst := (v3TxWatchRegisterBeforeReplay && v3TxWatchRegistersBeforeReturn)
       ownStream := v3TxWatchOwnStream }
   | .cfg3 =>
     { guardedSends := (v3CfgWatchGuardedSends == v3CfgWatchSends)
       hasEarlyExit := (v3CfgWatchReturns != 0)
       earlyExitsDrain := (v3CfgWatchUndrainedReturns == 0)
       doubleClose := (v3CfgWatchDeferClose && v3CfgWatchExplicitCloseReturns != 0)
-      registerFirst := v3CfgWatchRegisterBeforeReplay
+      registerFirst := (v3CfgWatchRegisterBeforeReplay && v3CfgWatchRegistersBeforeReturn)
       ownStream := v3CfgWatchOwnStream }
   | .prop2 =>
     { guardedSends := (v2PropWatchGuardedSends == v2PropWatchSends)
       hasEarlyExit := (v2PropWatchReturns != 0)
       earlyExitsDrain := (v2PropWatchUndrainedReturns == 0)
       doubleClose := (v2PropWatchDeferClose && v2PropWatchExplicitCloseReturns != 0)
-      registerFirst := v2PropWatchRegisterBeforeReplay
+      registerFirst := (v2PropWatchRegisterBeforeReplay && v2PropWatchRegistersBeforeReturn)
       ownStream := v2PropWatchOwnStream }
 
 /-- the per-watch goroutine as it was before commit 0003cc9 (bare `ch <- event`). -/
